@@ -919,6 +919,19 @@ class Exec(Interp):
         val = self.top_of(st, body.locals[t['dest']['l']]['tyj']) if not t['dest']['p'] else self.top_of_tystr(st, t['dest']['ty'])
         return [ret(st, val)]
 
+    def find_from_impl(self, T, U):
+        key = (T, U)
+        cache = self.__dict__.setdefault('_from_cache', {})
+        if key not in cache:
+            found = None
+            cands = ('<%s as std::convert::From<%s>>::from' % (U, T),)
+            for bid in self.f.bodies:
+                if bid in cands or (bid.endswith('>::from') and ('impl std::convert::From<%s> for %s>' % (T, U)) in bid):
+                    found = bid
+                    break
+            cache[key] = found
+        return self.body(cache[key]) if cache[key] else None
+
     def call_value(self, st, fnv, args, chain, depth):
         """Call a function item or closure value with already evaluated arguments; None if its body is not available."""
         if fnv[0] == 'fn':
@@ -1323,6 +1336,12 @@ class Exec(Interp):
                 return [(st, self.copy_val(st, v))]
             if name in ('deref', 'deref_mut', 'as_ref', 'as_mut', 'borrow', 'borrow_mut'):
                 return [(st, A[0] if A[0][0] == 'ref' else self.dest_top(st, fr, t))]
+            if name == 'into' and tr.endswith('convert::Into') and len(c.get('args', [])) == 2:
+                # blanket `impl<T, U: From<T>> Into<U> for T`: run the crate's own From impl if it has one
+                T, U = c['args']
+                cb = self.find_from_impl(T, U)
+                if cb is not None and chain.count(cb.id) < 3:
+                    return self.run_fn(cb, st, [A[0]], chain + [cb.id], depth + 1)
             if name in ('into', 'from'):
                 # identity conversions and simple wrappers are not modelled: top of destination
                 return [(st, self.dest_top(st, fr, t))]
